@@ -174,6 +174,26 @@ def _table_writers(rep):
                 sample='%s: cursor += %d per coefficient' % (fn, stride))
 
 
+def check_log_zero(rep):
+    """zero has no logarithm: gflog_base[0] is a filler, so every read of the log table must happen where its index is known to be non-zero"""
+    import llir, irrules
+    mod = llir.library('default')
+    R = rep.rule('L-LOG-ZERO', 'every load from the logarithm table gflog_base, in any function of the library, is dominated by a branch that excludes index 0 (log 0 does not exist; the table entry is a filler, and a product '
+                 'computed from it is wrong for the operand 0)', floor=3, unit='log-table reads')
+    for fn, f in sorted(mod.funcs.items()):
+        P = irrules.prov(mod, f)
+        for i in f.all_insns():
+            if i.op != 'load' or not any(a[0] == 'global' and a[1] == 'gflog_base' for a in P.atoms(i.ops[0])):
+                continue
+            R.instance()
+            d = f.defs.get(i.ops[0])
+            idx = d.extra['idx'][-1].split()[-1] if d is not None and d.op == 'getelementptr' else None
+            cons = irrules.edge_constraints(f, idx, i.block) if idx else []
+            ok = any((p == 'ne' and c == 0) or (p in ('ugt', 'sgt') and c >= 0) or (p in ('uge', 'sge') and c >= 1) for p, c in cons)
+            R.check(ok, mod.where(f, i), '%s reads gflog_base[x] where x may be 0: the filler entry is used as log(0), so a multiplication by 0 does not give 0' % fn, key='L-LOG-ZERO|%s|%d' % (fn, i.line or 0),
+                    sample='%s: index != 0' % fn)
+
+
 def main(tier):
     rep = Report('C12', tier, level='proof')
     rep.undecided = UNDECIDED
@@ -190,4 +210,5 @@ def main(tier):
     _table_writers(rep)
     _gfinit(rep, 'word64')
     _gfinit(rep, 'bytewise')
+    check_log_zero(rep)
     return rep.finish()
